@@ -53,3 +53,13 @@ func (s *ServerDnsListener) SimLiveConns() []net.Conn {
 	}
 	return out
 }
+
+// SimServerHeldPackets returns how many out-of-order packets a server-side connection is holding
+// for later. Called at quiescent points only.
+func SimServerHeldPackets(conn net.Conn) (int, bool) {
+	u, ok := conn.(*userConnection)
+	if !ok {
+		return 0, false
+	}
+	return u.in.SimFutureLen(), true
+}
